@@ -430,7 +430,7 @@ def _value_line_tokenizer(func):
         first_line = True
         for line in v.splitlines(keepends=True):
             assert not _RE_WHITESPACE_LINE.match(v)
-            if line.startswith("#"):
+            if line.startswith("#") and not first_line:
                 yield Deb822CommentToken(line)
                 continue
             has_newline = False
